@@ -678,16 +678,16 @@ impl<T: GseDecapMemory, C: CrcCalculator, MHEM: MandatoryHeaderExtensionManager>
             }
         };
 
-        // read pdu
-        pdu_buffer[..calculed_pdu_len].copy_from_slice(&buffer[offset..offset + calculed_pdu_len]);
-
-        // check pdu buffer size
+        // check pdu buffer size (before writing into it)
         let pdu_buffer_len = pdu_buffer.len();
-        if pdu_buffer_len + label_len + PROTOCOL_LEN + FRAG_ID_LEN + TOTAL_LENGTH_LEN < gse_len {
+        if pdu_buffer_len < calculed_pdu_len {
             self.last_label = None;
             self.memory.provision_storage(pdu_buffer).unwrap();
             return Err((DecapError::ErrorSizePduBuffer, pkt_len));
         }
+
+        // read pdu
+        pdu_buffer[..calculed_pdu_len].copy_from_slice(&buffer[offset..offset + calculed_pdu_len]);
 
         let metadata = DecapMetadata {
             pdu_len: 0,
